@@ -74,7 +74,8 @@ def run(spec_dir, module, cfg, workers=None, simulate=None, depth=None,
   """
   d = os.path.join(SPECS, spec_dir)
   meta = workdir(tag)
-  cmd = ["java", "-XX:+UseParallelGC", "-Xmx8g"]
+  # a modest heap: the largest model here has a few million states; many TLC runs execute concurrently
+  cmd = ["java", "-XX:+UseParallelGC", "-XX:ParallelGCThreads=4", "-Xmx" + os.environ.get("VERIF_TLC_XMX", "3g")]
   if deque:
     cmd.append("-Dtlc2.tool.queue.IStateQueue=StateDeque")
   cmd += ["-cp", CP, "tlc2.TLC", "-metadir", meta, "-noGenerateSpecTE"]
@@ -101,14 +102,19 @@ def run(spec_dir, module, cfg, workers=None, simulate=None, depth=None,
   if env:
     e.update(env)
   t0 = time.time()
-  try:
-    p = subprocess.run(cmd, cwd=d, env=e, stdout=subprocess.PIPE,
-                       stderr=subprocess.STDOUT, timeout=timeout)
-  except subprocess.TimeoutExpired:
+  for attempt in range(3):
+    try:
+      p = subprocess.run(cmd, cwd=d, env=e, stdout=subprocess.PIPE,
+                         stderr=subprocess.STDOUT, timeout=timeout)
+    except subprocess.TimeoutExpired:
+      shutil.rmtree(meta, ignore_errors=True)
+      raise TLCError("TLC timed out after %ss: %s %s" % (timeout, module, cfg))
+    if p.returncode not in (-9, 137):
+      break
+    # killed from outside (the kernel's out-of-memory killer on a crowded machine): not a verdict, try again
+    time.sleep(10 * (attempt + 1))
     shutil.rmtree(meta, ignore_errors=True)
-    raise TLCError("TLC timed out after %ss: %s %s" % (timeout, module, cfg))
-  finally:
-    pass
+    os.makedirs(meta, exist_ok=True)
   shutil.rmtree(meta, ignore_errors=True)
   r = TLCResult()
   r.wall = time.time() - t0
